@@ -1264,6 +1264,46 @@ theorem handleParams_eq (names : List Key) (cmd map : Dict) (c : Call) :
   simp only
   rcases posArgs c.kwargs names a1 cmd with ⟨c1, _ | e⟩ <;> rfl
 
+/-- more positional arguments than declared names: the loop `names[idx]` cannot finish — it raises
+(IndexError when the names are exhausted, or earlier "passed twice") -/
+theorem posArgs_surplus (kw : Dict) (names : List Key) (args : List PyVal) (cmd : Dict)
+    (h : names.length < args.length) : (posArgs kw names args cmd).2 ≠ none := by
+  induction names generalizing args cmd with
+  | nil =>
+    cases args with
+    | nil => simp at h
+    | cons a as => simp [posArgs]
+  | cons n ns ih =>
+    cases args with
+    | nil => simp at h
+    | cons a as =>
+      unfold posArgs
+      split
+      · simp
+      · exact ih as _ (by simpa using h)
+
+/-- the positional loop can only raise IndexError or "passed twice" -/
+theorem posArgs_exc (kw : Dict) (names : List Key) (args : List PyVal) (cmd : Dict) :
+    (posArgs kw names args cmd).2 = none ∨ (posArgs kw names args cmd).2 = some .index ∨
+    (posArgs kw names args cmd).2 = some .twice := by
+  induction names generalizing args cmd with
+  | nil => cases args <;> simp [posArgs]
+  | cons n ns ih =>
+    cases args with
+    | nil => simp [posArgs]
+    | cons a as =>
+      unfold posArgs
+      split
+      · simp
+      · exact ih as _
+
+/-- what is left for the positional loop after the `max_samples` pop -/
+theorem popExtra_length (names : List Key) (map : Dict) (args : List PyVal)
+    (h : names.length < args.length) : (popExtra names map args).2.length = args.length - 1 := by
+  unfold popExtra
+  rw [if_pos h]
+  simp
+
 /-- `final_truthful` at the level of one reachable state -/
 theorem final_truthful_state (fixed : Bool) (cfg : Cfg) (s : State) (hinv : Inv s)
     (hmap : s.mapPending = cfg.hasMap) (h : s.phase = .active) (w2 : List Ev) :
